@@ -153,6 +153,9 @@ class BaseColumnEnsembleClassifier(BaseClassifier, _HeterogenousMetaEstimator):
         self.classes_ = self.le_.classes_
         transformed_y = self.le_.transform(y)
 
+        # start from the unfitted state: once fitted, `_iter` yields the estimators
+        # of the previous fit instead of the (possibly replaced) constructor ones
+        self._is_fitted = False
         estimators_ = []
         for name, estimator, column in self._iter(replace_strings=True):
             estimator = clone(estimator)
